@@ -8,6 +8,7 @@ import WP.Model.Sdk
 import WP.Model.TransferFee
 import WP.Model.Setup
 import WP.Model.SdkSwap
+import WP.Model.PinoModify
 import WP.Gen.AnchorSpecs
 /-
   Line-protocol driver: one operation per line on stdin, one canonical result line on stdout.
@@ -503,7 +504,11 @@ def pmodLine (t : List String) : Option String :=
       let (su, ru) := tickArrayUpdate varU position.liq u.position.liq tu.initialized u.tickUpper.initialized
       let q := u.position
       let pr := String.intercalate " " (q.rewards.map fun r => s!"{r.checkpoint} {r.owed}")
-      let rg := String.intercalate " " (u.rewards.map fun r => s!"{r.growth}")
+      -- the global growths as the PINOCCHIO port computes them (skip on zero emissions: PinoModify.lean; equal to the
+      -- Anchor values wherever an uninitialized reward has no emissions: C12.pino_reward_growths_eq)
+      let rg := match pinoNextRewardGrowths p now with
+        | .ok l => String.intercalate " " (l.map fun g => s!"{g}")
+        | .error e => "err-" ++ e.name
       pure s!"ok {u.poolLiq} {rg} {q.liq} {q.cpA} {q.owedA} {q.cpB} {q.owedB} {pr} {showTick u.tickLower} {showTick u.tickUpper} {da} {db} {sl} {rl} {su} {ru}"
 
 /-- state of the `D` (dynamic tick array) protocol: Anchor-region array, Pinocchio-region array, fixed array, spacing -/
